@@ -164,6 +164,7 @@ BeginJ ==
   /\ \E ns \in 1..MaxPg, M \in SUBSET Pages, out \in {"commit", "rb_early", "rb_spill"},
         fin \in FinModes, nosync \in BOOLEAN, toWal \in BOOLEAN, E \in SUBSET Pages, F \in SUBSET Pages :
        /\ 1 \in M /\ M \subseteq 1..ns /\ (((CurSize + 1)..ns) \ {LockPg}) \subseteq M /\ LockPg \notin M
+       /\ ns # LockPg          \* SQLite never ends a database on the lock page (it skips it when it grows)
        \* E: pages beyond the committed size that were spilled to the file during the transaction and
        \* then freed again (incremental vacuum): written, but not part of the committed database
        /\ E \subseteq (ns + 1)..MaxPg /\ LockPg \notin E
@@ -323,6 +324,7 @@ BeginW ==
   /\ UNCHANGED <<dvars, lvars, refImg, salts, mx, ckpted, mvars>>
   /\ \E ns \in 1..MaxPg, M \in SUBSET Pages, out \in {"commit", "rollback"}, dup \in {0} \cup Pages, E \in SUBSET Pages :
        /\ 1 \in M /\ M \subseteq 1..ns /\ (((CurSize + 1)..ns) \ {LockPg}) \subseteq M /\ LockPg \notin M
+       /\ ns # LockPg          \* SQLite never ends a database on the lock page (it skips it when it grows)
        /\ (dup # 0 => dup \in M /\ AllowSpill)
        \* E: frames of pages beyond the committed size (spilled, then freed before the commit)
        /\ E \subseteq (ns + 1)..MaxPg /\ LockPg \notin E /\ (E # {} => AllowBeyond /\ out = "commit" /\ dup = 0)
